@@ -208,6 +208,17 @@ func runC14Bubble(t *testing.T, tape *sim.Tape, tier string, o *Outcome, schedp 
 			return nil, nil, false
 		}
 		srv.SetCommandHandler(store)
+		// an application command that registers a further executor from inside the command
+		srv.RegisterExexutor("XLOADMOD", func(conn *redis.Conn, cmd string, args redis.Arguments) (*redis.Message, error) {
+			name, err := args.NextString()
+			if err != nil {
+				return nil, err
+			}
+			srv.RegisterExexutor(strings.ToUpper(name), func(*redis.Conn, string, redis.Arguments) (*redis.Message, error) {
+				return redis.NewOKMessage(), nil
+			})
+			return redis.NewOKMessage(), nil
+		})
 		srv.SetPort(plainPort)
 		withPw := tape.Draw(3, "password") == 0
 		if withPw {
@@ -259,6 +270,7 @@ func runC14Bubble(t *testing.T, tape *sim.Tape, tier string, o *Outcome, schedp 
 			{"SADD", "s", "m"}, {"ZADD", "z", "1", "m"}, {"ZRANGE", "z", "0", "-1"}, {"DEL", "k"}, {"KEYS", "*"}, {"SELECT", "1"}, {"AUTH", "pw"}, {"AUTH", "nope"},
 			{"CONFIG", "SET", "maxclients", "10"}, {"CONFIG", "GET", "maxclients"}, {"CONFIG", "SET", "requirepass", "pw"}, {"CONFIG", "GET", "port"}, {"CONFIG", "GET", "*"}, {"CONFIG", "GET", "tls-*"}, {"CONFIG", "GET", "requirepass", "max*"}, {"CONFIG", "SET", "port", fmt.Sprint(plainPort)},
 			{"MSET", "a", "1", "b", "2"}, {"APPEND", "k", "x"}, {"EXPIRE", "k", "10"}, {"QUIT"},
+			{"XLOADMOD", "xmoda"}, {"XLOADMOD", "xmodb"}, {"XMODA"}, {"XLOADMOD", "xmodc"},
 			{"get", "k"}, {"Ping"}, {"set", "k", "v"}, {"Incr", "n"}, {"hGetAll", "h"}, {"select", "1"}, {"echo", "x"}, {"Echo", "x"},
 			{"GET", "shared:status"}, {"GET", "shared:status"}, {"GET", "shared:error"}, {"GET", "shared:bulk"}, {"GET", "shared:int"},
 		}
